@@ -114,14 +114,15 @@ func checkRecognised(text string) (Outcome, error) {
 	records, blocks, errs := parser.NewSerialParser().Parse(text)
 	if rec.Verdict == model.Invalid {
 		out.Label("recogniser:invalid")
-		if len(errs) == 0 || records != nil || blocks != nil {
-			return out, fmt.Errorf("the text breaks the specification (%s) but klog accepts it (%d records)\ntext: %s", rec, len(records), quoteShort(text))
+		_ = blocks
+		if len(errs) == 0 || len(records) != 0 {
+			return out, fmt.Errorf("the text breaks the specification (%s) but klog does not reject it (%d errors, %d records)\ntext: %s", rec, len(errs), len(records), quoteShort(text))
 		}
 		out.NonTrivial = true
 		return out, nil
 	}
 	out.Label("recogniser:valid")
-	if errs != nil {
+	if len(errs) != 0 {
 		return out, fmt.Errorf("the text conforms to the specification (%d records) but klog rejects it: line %d %s\ntext: %s", len(rec.Doc.Records), errs[0].LineNumber(), errs[0].Code(), quoteShort(text))
 	}
 	if err := compareDoc(rec.Doc, records); err != nil {
@@ -166,7 +167,8 @@ func checkC01(c caseC01) (Outcome, error) {
 	}
 	ftext := model.TextOf(flines)
 	records, blocks, errs := parser.NewSerialParser().Parse(ftext)
-	if len(errs) == 0 || records != nil || blocks != nil {
+	_ = blocks
+	if len(errs) == 0 || len(records) != 0 {
 		return out, fmt.Errorf("text with rule violation(s) %v was not rejected (errors=%d, records=%d)\ntext: %s", applied, len(errs), len(records), quoteShort(ftext))
 	}
 	out.NonTrivial = true
